@@ -10,7 +10,7 @@ GROUP = "Shared"
 META = {
     "group": "Shared",
     "technique": "Coq proof over a model of the symbol-table shared-flag locking protocol across a go statement (all interleavings) and of commuting critical sections + generated concurrent Ego programs run on the real interpreter under the Go race detector with a seeded Gosched hook in the dispatch loop",
-    "text": "C08_marked_before_conflict: for every interleaving of any number of table reads/writes/Shared(true) calls of the launching and the new goroutine, no two conflicting accesses meet on a table with one side unlocked, given that every table both can reach is marked at the fork (C08_fork_marks_captured_chain: what the repaired goByteCode establishes for the captured chain) and each otherwise stays below tables it created; C08_old_refuted gives the BUG-94 schedule. C08_sync_deterministic: any two serialisations of the goroutines' critical sections / hand-offs (commutative updates) leave every shared variable with the same value. The real interpreter is exercised by generated programs (goroutines, closures capturing the parent's scope, channels, WaitGroups, mutexes, fully synchronized results) built with -race, GOMAXPROCS 1..8, seeded runtime.Gosched injection before each instruction; any race report, fatal error, or stdout different from the computed result is a violation. partial: the Go memory model, races outside symbol tables (context fields, channel wrapper, runtime packages) and the claim that the code satisfies the theorem's reach hypotheses are only observed by the race detector; comparison with `go run` is replaced by a result computed by the generator",
+    "text": "C08_marked_before_conflict / C08_no_race_all_schedules: for every interleaving of any number of table reads/writes/Shared(true) calls of the launching and the new goroutine, no two conflicting accesses meet on a table with one side unlocked, given that every table both can reach is marked at the fork (C08_fork_marks_captured_chain: what the repaired goByteCode establishes for the captured chain) and each otherwise stays below tables it created; C08_old_refuted gives the BUG-94 schedule; C08_startup_old_refuted: before fix 7d20e5f5 GoRoutine's start-up read the launcher's c.symbols and the next-scope cache of its unshared current scope table (found by the race detector, repaired: goByteCode resolves the scope before go). C08_sync_deterministic: any two serialisations of the goroutines' critical sections / hand-offs (commutative updates) leave every shared variable with the same value. The real interpreter is exercised by generated programs (goroutines, closures capturing the parent's scope, channels, WaitGroups, mutexes, fully synchronized results) built with -race, GOMAXPROCS 1..8, seeded runtime.Gosched injection before each instruction; any race report, fatal error, or stdout different from the computed result is a violation. partial: the Go memory model, races outside symbol tables (context fields, channel wrapper, runtime packages) and the claim that the code satisfies the theorem's reach hypotheses are only observed by the race detector; comparison with `go run` is replaced by a result computed by the generator",
     "note": "Trusted: Coq kernel; hand-written model coq/Shared/Model.v of symbols.Shared/RLock/Lock and goByteCode/GoRoutine; the Go race detector; harness/C08 (in-package overlay, instrumented copy of run.go); props/C08.py generator and its computed expected outputs.",
 }
 
@@ -145,17 +145,18 @@ def run(ck):
               "the Go race detector reports the unsynchronized accesses that actually occur in the observed schedules")
     ck.trusted("harness/C08/c08_test.go, harness/C08/yield.go, instrumented copy of bytecode/run.go (verifYield at the top of the dispatch loop)",
                "go test -race build of internal/server/services", "props/C08.py generator and expected outputs")
-    theorems = ["C08_marked_before_conflict", "C08_fork_marks_captured_chain", "C08_old_refuted", "C08_sync_deterministic",
-                "C08_sync_deterministic_any_threads"]
+    theorems = ["C08_marked_before_conflict", "C08_no_race_all_schedules", "C08_startup_old_refuted", "C08_startup_old_schedule",
+                "C08_fork_marks_captured_chain", "C08_old_refuted", "C08_sync_deterministic", "C08_sync_deterministic_any_threads"]
     ck.coq_stage(GROUP, theorems=theorems)
 
     # ---- model regression corpus evaluated by vm_compute: the protocol shapes used by the generator
     if not getattr(ck, "coq_broken", None):
         okc, resc = vf.coq_eval(GROUP, ck.work, "corpus", "From Coq Require Import List. Import ListNotations.\nFrom Shared Require Import Model Proofs.", {
             "new": "[if raced (run (fork_state_new [[0]] cap0) old_schedule) then 1 else 0]",
+            "startup": "[if raced (run (fork_state_new [[0]] cap0) startup_schedule) then 1 else 0]",
             "old": "[if raced (run [[0]] old_schedule) then 1 else 0]"})
-        ck.add_obligations(1, 1 if okc and resc.get("new") == [0] and resc.get("old") == [1] else 0)
-        if not okc or resc.get("new") != [0] or resc.get("old") != [1]:
+        ck.add_obligations(1, 1 if okc and resc.get("new") == [0] and resc.get("old") == [1] and resc.get("startup") == [1] else 0)
+        if not okc or resc.get("new") != [0] or resc.get("old") != [1] or resc.get("startup") != [1]:
             ck.violation("model-corpus", "model corpus evaluation changed: %s" % (resc,), replay={"out": str(resc)[-2000:]}, found_input=False)
 
     ok, binp = build_race_binary(ck)
@@ -173,12 +174,12 @@ def run(ck):
     else:
         for k in KINDS:                       # one of each shape first (regression corpus of shapes)
             progs.append(gen_program(ck.rng, k))
-        for _ in range(4 if quick else 60):
+        for _ in range(16 if quick else 120):
             progs.append(gen_program(ck.rng))
         procs = [1, 2, 4, 8] if quick else [1, 2, 3, 4, 6, 8]
         configs = []
         for p in procs:
-            for _ in range(1 if quick else 3):
+            for _ in range(2 if quick else 4):
                 configs.append((p, ck.rng.randint(1, 1 << 30), ck.rng.choice([0, 2, 3, 5, 11])))
     evals, good, races, wrong = 0, set(), [], []
     classes = {}
@@ -211,6 +212,9 @@ def run(ck):
                 rep = m.group(1) if m else text[:3000]
                 frames = re.findall(r"\n\s+(github\.com/tucats/ego/[^\s(]+)\(", "\n" + rep)
                 site = "|".join(sorted(set(f.split("/ego/internal/")[-1] for f in frames[:2]))) or "unknown"
+                if re.search(r"\b(cachedNextScope|setCachedNextScope|invalidateNextScopeCache)\b", rep) and "bytecode.GoRoutine()" in rep:
+                    # the _refuted witness of the model: GoRoutine's start-up touches the launcher's scope table
+                    site = "nextscope-cache-vs-goroutine-startup"
                 races.append((site, src, exp, tags, gmp, seed + i, every, rep[:2500]))
                 continue
             if r is None:
